@@ -107,6 +107,7 @@ func execLogMw(args []string) string {
 	var recs []string
 	l := slog.New(capHandler{mu: &mu, recs: &recs})
 	mw := httputil.NewLogMiddleware(l, slog.LevelInfo)
+	outerLogger := slog.New(slog.NewTextHandler(io.Discard, nil))
 	var out []string
 	for _, rq := range SplitList(args[0], ";") {
 		f := strings.Split(rq, ",")
@@ -126,6 +127,11 @@ func execLogMw(args []string) string {
 			if v, _ := r.Context().Value(0).(string); v != "v-"+r.Header.Get("X-Id") {
 				seen += ",CONTEXT-VALUE-UNDER-KEY-0-LOST"
 			}
+			// the request arrived with a logger of an outer layer in its context: the handler finds the
+			// middleware's per-request logger there, not that one
+			if cl, ok := slogutil.LoggerFromContext(r.Context()); !ok || cl == outerLogger {
+				seen += ",CONTEXT-LOGGER-NOT-THE-MIDDLEWARE'S"
+			}
 			for _, op := range SplitList(ops, ".") {
 				if op == "w" {
 					_, _ = w.Write([]byte("body-" + r.Header.Get("X-Id")))
@@ -136,11 +142,18 @@ func execLogMw(args []string) string {
 				}
 			}
 		})
-		req := httptest.NewRequest(method, "http://"+host+uri, nil)
+		// an absolute-form request target (as a proxy receives it) is the RequestURI as it stands
+		target := "http://" + host + uri
+		if strings.HasPrefix(uri, "http://") {
+			target = uri
+		}
+		req := httptest.NewRequest(method, target, nil)
+		req.Host = host
 		req.RemoteAddr = raddr
 		req.RequestURI = uri
 		req.Header.Set("X-Id", host+uri)
 		req = req.WithContext(context.WithValue(req.Context(), 0, "v-"+host+uri)) //nolint:staticcheck // a key of a basic type on purpose
+		req = req.WithContext(slogutil.ContextWithLogger(req.Context(), outerLogger))
 		req.Trailer = http.Header{"X-T": nil}
 		req.Body = &trailerBody{r: strings.NewReader("rq-" + host + uri), req: req, val: "t-" + host + uri}
 		rec := &callRecorder{hdr: http.Header{}}
@@ -359,7 +372,11 @@ func genC20(g *G) {
 		n := 1 + g.Rnd.IntN(5)
 		var rs []string
 		for j := 0; j < n; j++ {
-			rs = append(rs, methods[g.Rnd.IntN(4)]+",h"+I(g.Rnd.IntN(50))+".example,/p"+I(g.Rnd.IntN(1000))+"?q="+I(j)+",10.0.0."+I(g.Rnd.IntN(250))+":"+I(1000+g.Rnd.IntN(5000))+","+opsPool[g.Rnd.IntN(len(opsPool))])
+			uri := "/p" + I(g.Rnd.IntN(1000)) + "?q=" + I(j)
+			if g.Rnd.IntN(5) == 0 {
+				uri = "http://other" + I(g.Rnd.IntN(9)) + ".example/abs" + I(g.Rnd.IntN(100)) + "?q=" + I(j)
+			}
+			rs = append(rs, methods[g.Rnd.IntN(4)]+",h"+I(g.Rnd.IntN(50))+".example,"+uri+",10.0.0."+I(g.Rnd.IntN(250))+":"+I(1000+g.Rnd.IntN(5000))+","+opsPool[g.Rnd.IntN(len(opsPool))])
 		}
 		g.Emit("logmw", strings.Join(rs, ";"))
 	}
